@@ -588,6 +588,111 @@ class Resolver:
         return None
 
     # ------------------------------------------------------------------
+    # ------------------------------------------------------------------
+    def _table_stores_instances(self):
+        """Field invariant of the session tables: every ``<x>.sockets[k] = v`` in the
+        repository stores a local bound only to constructor calls of repository classes that
+        define neither __bool__ nor __len__ (so a value read from a table is never None and
+        always truthy); tables are otherwise only created empty."""
+        if '_tsi' in self.__dict__:
+            return self._tsi
+        ok = True
+        n = 0
+        for f in self.m.all_funcs():
+            for st in ast.walk(f.node):
+                tgts = []
+                if isinstance(st, ast.Assign):
+                    tgts = [(t, st.value) for t in st.targets]
+                elif isinstance(st, ast.AugAssign):
+                    tgts = [(st.target, None)]
+                for t, v in tgts:
+                    if isinstance(t, ast.Subscript) and isinstance(t.value, ast.Attribute) \
+                            and t.value.attr == 'sockets':
+                        n += 1
+                        if not (isinstance(v, ast.Name) and self._ctor_bound(f, v.id)):
+                            ok = False
+                    if isinstance(t, ast.Attribute) and t.attr == 'sockets':
+                        if not (isinstance(v, ast.Dict) and not v.keys):
+                            ok = False
+                if isinstance(st, ast.Call) and isinstance(st.func, ast.Attribute) and \
+                        st.func.attr in ('update', 'setdefault', '__setitem__') and \
+                        isinstance(st.func.value, ast.Attribute) and \
+                        st.func.value.attr == 'sockets':
+                    ok = False
+        self._tsi = ok and n > 0
+        return self._tsi
+
+    def _ctor_bound(self, f, name):
+        found = False
+        for st in ast.walk(f.node):
+            if isinstance(st, ast.Name) and st.id == name and isinstance(st.ctx, ast.Store):
+                found = True
+        if not found:
+            return False
+        for st in ast.walk(f.node):
+            if isinstance(st, ast.Assign) and any(
+                    isinstance(t, ast.Name) and t.id == name for t in st.targets):
+                v = unawait(st.value)
+                if not isinstance(v, ast.Call):
+                    return False
+                d = dotted(v.func)
+                r = self.m.resolve_symbol(f.module, d) if d else None
+                if not r or r[0] != 'class':
+                    return False
+                for k in self.m.mro(r[1]):
+                    if '__bool__' in k.methods or '__len__' in k.methods:
+                        return False
+            elif isinstance(st, (ast.For, ast.AsyncFor, ast.With, ast.AsyncWith,
+                                 ast.AugAssign, ast.NamedExpr)):
+                tg = getattr(st, 'target', None)
+                if tg is not None and any(isinstance(m, ast.Name) and m.id == name
+                                          for m in ast.walk(tg)):
+                    return False
+        return True
+
+    def returns_instance(self, call, fi, ctx=None):
+        """Is ``call`` a call of a repository function that, whenever it returns, returns an
+        object read from a session table (``<self>.sockets[...]``) - hence, by the table
+        invariant, an instance: not None, truthy."""
+        call = unawait(call)
+        if not isinstance(call, ast.Call):
+            return False
+        key = (txt(call.func), fi.qualname, ctx.qualname if ctx else None)
+        cache = self.__dict__.setdefault('_ri', {})
+        if key in cache:
+            return cache[key]
+        cache[key] = False
+        try:
+            with self.quiet():
+                res = self.resolve(call, fi, ctx)
+        except Exception:
+            return False
+        if res is None or res.kind != 'repo' or not res.funcs:
+            return False
+        for f, _c in res.funcs:
+            rets = [n for n in ast.walk(f.node) if isinstance(n, ast.Return)]
+            if not rets:
+                return False
+            for r in rets:
+                v = unawait(r.value) if r.value is not None else None
+                if isinstance(v, ast.Name):
+                    defs = [st.value for st in ast.walk(f.node) if isinstance(st, ast.Assign)
+                            and any(isinstance(t, ast.Name) and t.id == v.id
+                                    for t in st.targets)]
+                    if not defs or not all(self._is_table_read(d) for d in defs):
+                        return False
+                elif not self._is_table_read(v):
+                    return False
+        out = self._table_stores_instances()
+        cache[key] = out
+        return out
+
+    @staticmethod
+    def _is_table_read(v):
+        v = unawait(v) if v is not None else None
+        return isinstance(v, ast.Subscript) and isinstance(v.value, ast.Attribute) and \
+            v.value.attr == 'sockets'
+
     def const_expr(self, e, fi):
         """AST of a repository constant denoted by Name/Attribute e inside fi, else None.
         Only module/class level literals and tuples/lists of literals or names."""
